@@ -8,6 +8,7 @@ import (
 	"os"
 	"strings"
 	"sync"
+	"time"
 
 	"golang.org/x/tools/go/ssa"
 )
@@ -23,7 +24,7 @@ type Config struct {
 
 // Exec is one path execution (replay-based forking).
 type Exec struct {
-	sortMode int // 0 undecided, 1 stable, 2 equal elements reversed (sort.Slice is not stable by contract)
+	sortMode  int // 0 undecided, 1 stable, 2 equal elements reversed (sort.Slice is not stable by contract)
 	w         *World
 	prog      *ssa.Program
 	solver    *Solver
@@ -180,6 +181,9 @@ func (e *Exec) addPC(t *Term) {
 }
 
 func (e *Exec) check(extra *Term) string {
+	if !e.w.deadline.IsZero() && time.Now().After(e.w.deadline) {
+		panic(inconclusive{"wall-clock budget of the harness used up inside a path (solver too slow on this tree): bound too small"})
+	}
 	e.solverCalls++
 	r := e.solver.CheckWith(extra)
 	if strings.HasPrefix(r, "unknown") {
